@@ -97,6 +97,14 @@ CHECKS = {
          "pinwords_of_length lists the language without repetition; word->perm and perm->words tables are inverse and memo-history independent; "
          "m_to_sp/sp_to_m are mutually inverse; the (fixed) pinword_contains equals Thm 3.13's non-touching search. Letter tables regenerated from the source.",
          "the containment iff (Bassino-Bouvel-Pierrot-Rossin Thm 3.13) is a bounded test: all strict words <=5 / all words <=4 against all permutations <=4.", "5/C14"),
+ "C11": ("Lean 4 theorems: every listing/count/statistic model = its definitional spec (28 of the 32 named statistics, Fenwick-tree inversions, cycles/order, bounces, stack-sort counts, primes), name->function table regenerated from the source and decided, distribution/preservation tools + correspondence",
+         "Proved for all permutations (most for all sequences): each counting form = length of its listing; the 20 positional listings = their definitional "
+         "filters; single-pass algorithms (records, runs, major index, depth, rank encoding, holeyness), the Fenwick-tree inversion count, cycle decomposition "
+         "and order (with termination), bounces, stack-sort counts (terminate, least k), is_prime <-> Nat.Prime; the generated 32-entry name->function table "
+         "binds every proved name to the function its name promises (decide over the regenerated table); distributions sum to the class size; preservation/"
+         "equidistribution tools report a statistic iff the defining identity holds. Exhaustive correspondence on all permutations of length <=7.",
+         "known findings: table entries 14/15 (LIS/LDS bound to longest run; README doctest pins them), max_drop_size (doctest-pinned), layer peeling "
+         "(doctest-pinned); pop-stack termination bound and threepats/fourpats/min_gapsize/jointly_* are correspondence-only.", "5/C11"),
 }
 
 PENDING = {}
